@@ -13,7 +13,7 @@ from functools import partial
 
 from harness import exec_tasks as T
 
-CALL_TIMEOUT = float(os.environ.get("VERIF_CALL_TIMEOUT", "60"))
+CALL_TIMEOUT = float(os.environ.get("VERIF_CALL_TIMEOUT", "240"))
 
 
 def enc(v):
@@ -103,7 +103,7 @@ def main():
             for a, b in zip(it["corder"], it["corder"][1:]):
                 pred[b] = a
             ids = list(range(1, n + 1))
-            toks = [f"{d}|{run}|{pred[i]}" for i in ids]
+            toks = [f"{d}|{run}|{pred[i]}|{it['workers']}" for i in ids]
             if it["api"] == "map":
                 res, exc = guarded(lambda: ex.map(T.sched, ids, toks))
             elif it["api"] == "starmap":
